@@ -9,6 +9,7 @@ import (
 
 	"github.com/codelaboratoryltd/bng/pkg/pppoe"
 	bngradius "github.com/codelaboratoryltd/bng/pkg/radius"
+	"github.com/codelaboratoryltd/bng/pkg/simrt"
 	"go.uber.org/zap"
 	"layeh.com/radius"
 	"layeh.com/radius/rfc2865"
@@ -206,7 +207,9 @@ func c04Gen(r *sim.Rand, tier string) *sim.Case {
 	for i := 0; i < n; i++ {
 		p := int64(r.N(np))         // whose session the frame names
 		src := int64(r.Weighted(7, 2, 1)) // 0 owner, 1 another peer's MAC, 2 an outsider MAC
-		switch r.Weighted(2, 3, 2, 4, 2, 1, 2, 2, 8, 5, 6, 2, 2) {
+		switch r.Weighted(2, 3, 2, 4, 2, 1, 2, 2, 8, 5, 6, 2, 2, 2) {
+		case 13:
+			cs.Ops = append(cs.Ops, sim.Op{K: "admindisc", A: []int64{p}})
 		case 0:
 			cs.Ops = append(cs.Ops, sim.Op{K: "padi", A: []int64{p}})
 		case 1:
@@ -252,6 +255,14 @@ func c04Run(c *sim.Ctx) {
 		panic(err)
 	}
 	w.srv = srv
+	// server-initiated disconnects go through the package's SessionTeardown over the server's own
+	// session table and pool (PADT, retry after a delay, cleanup)
+	td := pppoe.NewSessionTeardown(pppoe.DefaultTeardownConfig(), zap.NewNop())
+	td.SetSessionManager(srv.VerifSessionManager())
+	td.SetIPPool(srv.VerifPool())
+	td.SetSendPADT(func(s *pppoe.Session, _ []pppoe.Tag) { c.S.Logf("teardown sends PADT for session %d", s.ID) })
+	var tdTasks []*simrt.Task
+	tearing := map[uint16]bool{}
 	if w.radius {
 		cl, err := bngradius.NewClient(bngradius.ClientConfig{Servers: []bngradius.ServerConfig{{Host: "radius.sim", Port: 1812, Secret: "s3cret"}},
 			NASID: "bng", Timeout: 3 * time.Second, Retries: 3}, zap.NewNop())
@@ -371,7 +382,7 @@ func c04Run(c *sim.Ctx) {
 		c.OpsDone++
 		// let goroutines the handler started (LCP start) finish
 		c.S.Sleep(time.Millisecond)
-		if !owner && before.exists {
+		if !owner && before.exists && !tearing[sid] { // (a session under server-initiated teardown changes on its own)
 			after := w.snap(sid)
 			switch {
 			case !after.exists || after.key != before.key:
@@ -408,6 +419,21 @@ func c04Run(c *sim.Ctx) {
 			}
 			c.S.Sleep(time.Duration(op.Arg(0)) * time.Second)
 			w.checkAll("sleep")
+		case "admindisc":
+			// an operator disconnects the peer's session while its frames keep arriving
+			p := w.peers[pi]
+			if p.sid == 0 {
+				continue
+			}
+			if sess := srv.VerifSessionManager().GetSession(p.sid); sess != nil {
+				c.S.Fault("terminate.server-initiated")
+				tearing[p.sid] = true
+				tdTasks = append(tdTasks, c.S.Spawn("admin-disconnect", nil, func() {
+					td.TerminateSession(sess, pppoe.TerminateCauseAdminReset, "")
+				}))
+				c.S.Pause()
+				w.checkAll("admindisc")
+			}
 		case "padi":
 			p := w.peers[pi]
 			deliver("padi", true, p.mac, true, 0, pppoeHdr(pppoe.CodePADI, 0, append(tag(pppoe.TagServiceName, nil), tag(pppoe.TagHostUniq, []byte{byte(pi), 1})...)))
@@ -487,6 +513,10 @@ func c04Run(c *sim.Ctx) {
 			}
 		}
 		c.State(uint64(n))
+	}
+	if len(tdTasks) > 0 && !c.Failed() {
+		c.S.Join(tdTasks...)
+		w.checkAll("teardown")
 	}
 }
 
